@@ -243,6 +243,9 @@ def run(ctx, rep):
         Wp = cn.cf(W)
         Rabs = ('app', 'abs', (remterm,))
         okw = any(F.poly_eq(Wp, F.padd(cn.cf(R), {(): 1.0})) for R in (remterm, Rabs))
+        # |G| % 7 is the same for the positive day numbers of the common era: the dividend may be wrapped in an abs
+        while G is not None and G[0] == 'app' and (G[1].endswith('::abs') or G[1].endswith('::unsigned_abs') or G[1] == 'abs') and len(G[2]) == 1:
+            G = strip(G[2][0])
         rep.ob('R17.8', 'weekday-range', okw and modulus == 7.0,
                'weekday = (day number mod 7) + 1, within 1..=7 (Sunday = R.D. 0 mod 7 = 1 = Ahad)' if okw else
                f'weekday is {show(W, maxd=6)[:140]} (expected (day number mod 7) + 1)')
@@ -293,6 +296,11 @@ def run(ctx, rep):
     # ---- R17.7 / R17.2 day of month and Hijri day number ------------------------------------------------------------------
     Dm = strip(fld[role['day']])
     one = K(1)
+    # the month number is at least 1 (the search starts at 1 and only counts up: R17.4) - lets a truncating `m / 2` be read as a floor
+    cn.set_lower_bound(M, 1)
+    for x in subterms(M):
+        if x and x[0] == 'loopval':
+            cn.set_lower_bound(x, 1)
     v = F.compare_polys(cn.cf(add(sub(G, ref_hijri_abs(one, M, Y)), one)), cn.cf(Dm))
     rep.ob('R17.2', 'day-of-month', {'equal': True, 'different': False}.get(v),
            'day = day number - [1 + 29(m-1) + floor(m/2) + 354(y-1) + floor((3+11y)/30) + 227015 - 1] + 1' if v == 'equal' else
@@ -314,7 +322,12 @@ def run(ctx, rep):
         seen.add(key)
         guards = [(c, v) for c, v in asm.items() if mentions(c, lvterm)]
         loops.append((lid, l, init, cur, lvterm, guards, asm))
-    rep.floor('search loops', len(loops), 3)
+    searches_opaque = any(k.startswith(('std::iter::', 'core::iter::')) for k in eng.unmodelled)
+    if searches_opaque and len(loops) < 3:
+        rep.ob('R17.3', 'searches', None, 'the year / month searches are written with iterator adaptors the interpreter has no model for: '
+               f'{sorted(k for k in eng.unmodelled if k.startswith(("std::iter::", "core::iter::")))[:3]} - not decided')
+    else:
+        rep.floor('search loops', len(loops), 3)
     n_year = n_month = 0
     for (lid, l, init, cur, lvt, guards, asm) in loops:
         stepp = F.padd(cn.cf(cur), cn.cf(lvt), -1.0)
@@ -401,8 +414,9 @@ def run(ctx, rep):
             month_length_rules(ctx, rep, cn, Lterm, lvt, Y)
         else:
             rep.ob('R17.3', f'loop:{name}', None, f'step {step} of a search loop not recognised')
-    rep.floor('year searches', n_year, 2)
-    rep.floor('month searches', n_month, 1)
+    if not searches_opaque:
+        rep.floor('year searches', n_year, 2)
+        rep.floor('month searches', n_month, 1)
 
     tables(ctx, rep)
     display_wiring(ctx, rep, disp, role)
@@ -573,7 +587,11 @@ def tables(ctx, rep):
             if len(lv) != 1:
                 bad.append(f'{nval}: {len(lv)} outcomes')
                 continue
-            r = eng.force(lv[0], lv[0].ret)
+            try:
+                r = eng.force(lv[0], lv[0].ret)
+            except E.Fork:
+                bad.append(f'{nval}: result not decided by the interpreter')
+                continue
             if 1 <= nval <= len(names):
                 okv = r[0] == 'enum' and r[2] == 'Ok' and r[4] and r[4][0][0] == 'enum' and r[4][0][2] == names[nval - 1]
             else:
